@@ -38,7 +38,11 @@ def check_table(case, stats):
 
 def unit_tables(a):
     stats = Stats()
-    py = tables.python_dynamic()
+    try:
+        py = tables.python_dynamic()
+    except Violation as v:
+        stats.fail(v.case, v.message)
+        return stats
     ntrans = sum(len(v[0]) for v in py["states"].values())
     stats.notes["python_states"] = len(py["states"])
     stats.notes["python_transitions"] = ntrans
@@ -197,6 +201,10 @@ def check_bisim(case, stats):
 
 def unit_bisim(a):
     stats = Stats()
+    try:
+        tables.python_dynamic()
+    except Violation:
+        return stats  # reported by table-identity
     try:
         bisim(stats)
     except Violation as v:
